@@ -33,9 +33,9 @@ theorem classify_up_budget {c r sep r'} (h : classify c r = .up sep r') :
           · cases h
     · cases h
 
-theorem go_len (cap : Nat) (rest : Bytes) (b : Bool) (out : Bytes) (st : List Nat) (t : Bytes)
-    (h : go cap rest b out st = .ok t) : t.length ≤ max 1 (out.length + rest.length) := by
-  fun_induction go cap rest b out st
+theorem go_len (rest : Bytes) (b : Bool) (out : Bytes) (st : List Nat) (t : Bytes)
+    (h : go rest b out st = .ok t) : t.length ≤ max 1 (out.length + rest.length) := by
+  fun_induction go rest b out st
   case case1 ic out st => cases h; simpa using finish_len out
   case case2 out st c r ih => have := ih h; simp at this ⊢; omega
   case case3 ic out st c r hn r' hc ih =>
@@ -44,117 +44,34 @@ theorem go_len (cap : Nat) (rest : Bytes) (b : Bool) (out : Bytes) (st : List Na
   case case5 ic out st c r hn sep r' hc p ih =>
     have := ih h; have := classify_up_budget hc; have := dotdot_len out st sep
     simp [p] at *; omega
-  case case6 => simp at h
-  case case7 ic out st c r hn hc hcap ih => have := ih h; simp at this ⊢; omega
+  case case6 ic out st c r hn hc ih => have := ih h; simp at this ⊢; omega
 
-/-- Never lengthens: `|canon s| ≤ |s|` (for every capacity, every input). -/
-theorem len (cap : Nat) (s t : Bytes) (h : canonCap cap s = .ok t) : t.length ≤ s.length := by
-  unfold canonCap at h
+/-- Never lengthens: `|canon s| ≤ |s|` for every input. -/
+theorem len (s t : Bytes) (h : canon s = .ok t) : t.length ≤ s.length := by
+  unfold canon at h
   split at h
   · simp at h
   · split at h
-    · have := go_len _ _ _ _ _ _ h; simp at this ⊢; omega
-    · have := go_len _ _ _ _ _ _ h; simp at this ⊢; omega
+    · have := go_len _ _ _ _ _ h; simp at this ⊢; omega
+    · have := go_len _ _ _ _ _ h; simp at this ⊢; omega
 
-/-! ### No panic within the capacity -/
+theorem go_ok (rest : Bytes) (b : Bool) (out : Bytes) (st : List Nat) : ∃ t, go rest b out st = .ok t := by
+  fun_induction go rest b out st <;> simp_all
 
-theorem numComps_inComp (c : UInt8) (r : Bytes) :
-    numComps (c :: r) true = numComps r (!isSep c) := by
-  simp [numComps]; split <;> simp_all
-
-theorem classify_skip_comps {c r r'} (h : classify c r = .skip r') :
-    numComps r' false ≤ numComps (c :: r) false := by
-  unfold classify at h
-  split at h
-  · cases h; simp [numComps, *]
-  · split at h
-    · split at h
-      · cases h
-      · split at h
-        · cases h; simp [numComps, *]
-        · split at h
-          · split at h
-            · cases h
-            · split at h <;> cases h
-          · cases h
-    · cases h
-
-theorem classify_up_comps {c r sep r'} (h : classify c r = .up sep r') :
-    numComps r' false ≤ numComps (c :: r) false := by
-  unfold classify at h
-  split at h
-  · cases h
-  · split at h
-    · split at h
-      · cases h
-      · split at h
-        · cases h
-        · split at h
-          · split at h
-            · cases h; simp [numComps]
-            · split at h
-              · cases h; simp [numComps, *]
-              · cases h
-          · cases h
-    · cases h
-
-theorem classify_comp_notsep {c r} (h : classify c r = .comp) : isSep c = false := by
-  unfold classify at h
-  split at h
-  · cases h
-  · simp_all
-
-theorem dotdot_stack_len (out : Bytes) (st : List Nat) (sep : Option UInt8) :
-    (dotdot out st sep).2.length ≤ st.length := by
-  unfold dotdot; split <;> simp
-
-theorem go_ok (cap : Nat) (rest : Bytes) (b : Bool) (out : Bytes) (st : List Nat)
-    (h : numComps rest b + st.length ≤ cap) : ∃ t, go cap rest b out st = .ok t := by
-  fun_induction go cap rest b out st
-  case case1 => exact ⟨_, rfl⟩
-  case case2 out st c r ih => apply ih; rw [numComps_inComp] at h; exact h
-  case case3 ic out st c r hn r' hc ih =>
-    apply ih; have := classify_skip_comps hc; simp at hn; subst hn; omega
-  case case4 => exact ⟨_, rfl⟩
-  case case5 ic out st c r hn sep r' hc p ih =>
-    apply ih; have := classify_up_comps hc; have := dotdot_stack_len out st sep
-    simp at hn; subst hn; simp [p]; omega
-  case case6 ic out st c r hn hc hcap =>
-    exfalso; have := classify_comp_notsep hc; simp at hn; subst hn
-    simp [numComps, this] at h; omega
-  case case7 ic out st c r hn hc hcap ih =>
-    apply ih; have := classify_comp_notsep hc; simp at hn; subst hn
-    simp [numComps, this] at h ⊢; omega
-
-/-- A non-empty path with at most `cap` components (60 in n2) is always canonicalised:
-    no panic, no other abnormal outcome. -/
-theorem ok (cap : Nat) (s : Bytes) (hne : s ≠ []) (hc : numComps s false ≤ cap) :
-    ∃ t, canonCap cap s = .ok t := by
-  unfold canonCap
+/-- Every non-empty path is canonicalised — any number of components (after the repair of
+    finding F4 the component stack spills to the heap instead of panicking past 60). -/
+theorem ok (s : Bytes) (hne : s ≠ []) : ∃ t, canon s = .ok t := by
+  unfold canon
   cases s with
   | nil => exact absurd rfl hne
-  | cons c r =>
-    simp only
-    split
-    · apply go_ok; simp [numComps, *] at hc; simpa using hc
-    · apply go_ok; simpa using hc
+  | cons c r => simp only; split <;> exact go_ok _ _ _ _
 
-/-- The only abnormal outcomes, for every input whatsoever, are the two explicit panics of the
-    source (`assert!(!path.is_empty())`, "too many path components"). -/
-theorem outcomes (cap : Nat) (s : Bytes) :
-    (∃ t, canonCap cap s = .ok t) ∨ (∃ m, canonCap cap s = .panic m) := by
-  have key : ∀ rest b out st, (∃ t, go cap rest b out st = .ok t) ∨ (∃ m, go cap rest b out st = .panic m) := by
-    intro rest b out st
-    fun_induction go cap rest b out st <;> simp_all
-  unfold canonCap
-  split
-  · exact Or.inr ⟨_, rfl⟩
-  · split <;> exact key _ _ _ _
+/-- The empty path is the one input `canonicalize_path` refuses (its callers never pass it:
+    repair of finding F3). -/
+theorem empty_refused : canon [] = .panic "assertion failed: !path.is_empty()" := rfl
 
-/-- Non-vacuity: a concrete spelling (`a/./b//../c\\\\..`) with every special case in it
-    canonicalises to `a/`, and satisfies the hypotheses of `ok`. -/
+/-- Non-vacuity: a concrete spelling (`a/./b//../c\\..`) with every special case in it. -/
 example : canon [97,47,46,47,98,47,47,46,46,47,99,92,92,46,46] = .ok [97,47] := by
-  simp [canon, canonCap, go, classify, isSep, dot, dotdot, finish, CAP]
-example : numComps [97,47,46,47,98,47,47,46,46,47,99,92,92,46,46] false ≤ CAP := by decide
+  simp [canon, go, classify, isSep, dot, dotdot, finish]
 
 end N2V.C13
